@@ -11,7 +11,7 @@ symbolic) domain, so a change of a table entry in the C source breaks a proof ob
 Anything outside the supported fragment raises Unsupported: the check then reports that the translation tie is broken."""
 import json, os, subprocess, sys
 
-REPO = os.environ.get("LIBPOLY_REPO", "/repo")
+REPO = os.environ.get("LPV_REPO", "/repo")
 ROOT = os.path.dirname(os.path.dirname(os.path.abspath(__file__)))
 OUT = os.path.join(ROOT, "lean", "LP", "Gen", "SignCondition.lean")
 SRC = os.path.join(REPO, "src", "utils", "sign_condition.c")
